@@ -478,7 +478,7 @@ func genExtraValue(t *rapid.T, depth int) jv {
 func genNpmCase(t *rapid.T, col *ev.Collector) *npmCase {
 	c := &npmCase{}
 	// layout
-	if rapid.IntRange(0, 5).Draw(t, "compact") == 0 {
+	if chance(t, "compact", 1, 6) {
 		c.Layout = npmLayout{Compact: true, Colon: rapid.SampledFrom([]string{":", ": "}).Draw(t, "colon"), CommaSpace: rapid.Bool().Draw(t, "comma_space"), NL: "\n"}
 	} else {
 		c.Layout = npmLayout{
@@ -506,10 +506,10 @@ func genNpmCase(t *rapid.T, col *ev.Collector) *npmCase {
 		usedReal[u.key] = true
 		spec := rapid.SampledFrom(npmSpecs).Draw(t, "spec")
 		switch rapid.IntRange(0, 9).Draw(t, "unit_kind") {
-		case 0, 1: // alias
+		case 8, 9: // alias
 			real := genNpmName(t, usedKeys) // reserves the real name as a key too, so that package keys stay unique
 			u.lit = "npm:" + real + "@" + spec
-		case 2: // non-registry
+		case 7: // non-registry
 			u.lit = rapid.SampledFrom(npmNonRegistry).Draw(t, "nonreg")
 			u.registry = false
 		default:
@@ -518,7 +518,7 @@ func genNpmCase(t *rapid.T, col *ev.Collector) *npmCase {
 		// sections: mostly one, sometimes several (with the same or another specifier)
 		perm := rapid.Permutation(npmSections).Draw(t, "sec_perm")
 		k := 1
-		if u.registry && rapid.IntRange(0, 4).Draw(t, "multi_sec") == 0 {
+		if u.registry && chance(t, "multi_sec", 1, 5) {
 			k = rapid.IntRange(2, 3).Draw(t, "n_sec")
 		}
 		for j := 0; j < k; j++ {
@@ -546,7 +546,7 @@ func genNpmCase(t *rapid.T, col *ev.Collector) *npmCase {
 	}
 	for _, s := range npmSections {
 		ms, ok := secMembers[s]
-		if !ok && rapid.IntRange(0, 3).Draw(t, "empty_sec_"+s) != 0 {
+		if !ok && !chance(t, "empty_sec_"+s, 1, 4) {
 			continue
 		}
 		if len(ms) > 1 {
@@ -555,11 +555,11 @@ func genNpmCase(t *rapid.T, col *ev.Collector) *npmCase {
 		}
 		members = append(members, jv{K: s, T: "o", C: ms})
 	}
-	if rapid.IntRange(0, 2).Draw(t, "peer") == 0 {
+	if chance(t, "peer", 1, 3) {
 		// peerDependencies are not requirements for the reader; whatever they hold must be preserved
 		pd := jv{K: "peerDependencies", T: "o"}
 		for _, u := range units {
-			if rapid.IntRange(0, 2).Draw(t, "peer_dup") == 0 {
+			if chance(t, "peer_dup", 1, 3) {
 				pd.C = append(pd.C, jv{K: u.key, T: "s", S: rapid.SampledFrom(npmSpecs).Draw(t, "peer_spec")})
 			}
 		}
@@ -590,7 +590,7 @@ func genNpmCase(t *rapid.T, col *ev.Collector) *npmCase {
 	// updates: a subset of the registry units
 	knownPath := col != nil && col.IsKnown("c13.npm_name_path_chars")
 	for _, u := range units {
-		if !u.registry || rapid.IntRange(0, 2).Draw(t, "update_"+u.key) == 0 {
+		if !u.registry || !chance(t, "update_"+u.key, 2, 3) {
 			continue
 		}
 		if knownPath && npmKeyHasPathChars(u.key) {
